@@ -54,8 +54,8 @@ impl Property for C08 {
         match (tier, suite.slow()) {
             (Tier::Quick, false) => (0..14).map(|s| (s, 3)).collect(),
             (Tier::Quick, true) => vec![(0, 1), (1, 1), (2, 1), (3, 1), (4, 1), (12, 1)],
-            (Tier::Thorough, false) => (0..14).map(|s| (s, 8)).collect(),
-            (Tier::Thorough, true) => (0..9).map(|s| (s, 2)).collect(),
+            (Tier::Thorough, false) => (0..14).map(|s| (s, 60)).collect(),
+            (Tier::Thorough, true) => (0..14).map(|s| (s, 6)).collect(),
         }
     }
     fn chunk(&self, _suite: SuiteId) -> u32 {
